@@ -32,7 +32,8 @@ def deliver_case(draw, broker):
     msgs = []
     for i in range(n):
         cls, us = draw(DELTA)
-        msgs.append({"id": f"d{i}", "cls": cls, "delta_us": us, "form": draw(st.sampled_from(["net", "net", "until", "job"])),
+        forms = ["net", "net", "until", "job"] + (["by"] if cls != "past" else []) + (["jobby"] if cls in ("seconds", "far") else [])
+        msgs.append({"id": f"d{i}", "cls": cls, "delta_us": us, "form": draw(st.sampled_from(forms)),
                      "at": draw(st.one_of(st.just(0.0), st.integers(0, 5_000_000).map(lambda u: u / 1e6))),
                      "prio": draw(st.sampled_from([0, 5, 5, 9]))})
     for i in range(draw(st.integers(0, 3))):
@@ -68,6 +69,17 @@ async def _enqueue(env, conn, m, loop, record):
         job = Job("t0", queue="qd", id_=m["id"], deferred_until=due, priority=PrioritiesT(m["prio"]), _connection=conn)
         record[m["id"]] = {"due": vclock.secs(due) if d > timedelta(0) else None, "enq": loop.time()}
         await job.enqueue()
+        return
+    if m["form"] == "jobby":
+        # first run of a recurring job: one period after the job's timestamp
+        job = Job("t0", queue="qd", id_=m["id"], deferred_by=d, priority=PrioritiesT(m["prio"]), _connection=conn)
+        record[m["id"]] = {"due": vclock.secs(job.timestamp + d), "enq": loop.time()}
+        await job.enqueue()
+        return
+    if m["form"] == "by":
+        params = Parameters(delay=DelayProperties(defer_by=d))
+        record[m["id"]] = {"due": vclock.secs(params.timestamp + d), "enq": loop.time()}
+        await b.enqueue(RoutingKey(topic="t0", queue="qd", priority=m["prio"], id_=m["id"]), "", params)
         return
     if m["form"] == "net":
         params = Parameters(delay=DelayProperties(next_execution_time=due))
@@ -194,7 +206,7 @@ def visible_case(draw, broker):
     cls, us = draw(st.one_of(st.tuples(st.just("seconds"), st.integers(2_000_000, 30_000_000)),
                              st.tuples(st.just("far"), st.sampled_from([3600, 86400 * 400]).map(lambda s: s * 1_000_000 + 5))))
     return {"broker": broker, "seed": draw(st.integers(0, 2**16)), "delta_us": us, "cls": cls,
-            "form": draw(st.sampled_from(["net", "until", "job"])), "phase_us": draw(st.integers(0, 999_999)),
+            "form": draw(st.sampled_from(["net", "until", "job", "by", "jobby"])), "phase_us": draw(st.integers(0, 999_999)),
             "peek_at_us": draw(st.integers(0, 1_500_000)), "prio": draw(st.sampled_from([0, 5, 9])),
             "others": draw(st.integers(0, 2))}
 
